@@ -21,7 +21,8 @@ RULE = ("Hypothesis draws (T<=3) rasters from 1x1 to ~60x60 with 1..40 zones (in
         "5000x6000 = 3e7 pixels and 1000 zones in thorough) whose exact sums are known in closed form. Oracle: exact integer sums / "
         "math.fsum per zone; |mean - mean*| <= 2 ulp_dtype(mean*) (+ the a-priori bound n*2^-53*mean|x| of float64 recursive "
         "summation for non-integral float data), count == dtype(count*), empty zone -> (NaN, 0), permutation invariance within the "
-        "same bound. Non-trivial: >= 2 pixels in some zone and (nodata present or >= 2 zones); distinct by content hash.")
+        "same bound. Non-trivial: >= 2 pixels in some zone and (nodata present or >= 2 zones); distinct by content hash. "
+        " Added after the fourth seeded round: Narrow integer cubes with a nodata attribute outside their dtype; sub-check 'history': cube and zone raster edited in place between zonal.mean()/do_mean() calls.")
 ASSUME = ["Python integers / math.fsum as exact arithmetic"]
 
 
